@@ -15,7 +15,7 @@ from typing import Any, Dict, Iterator, List, Tuple
 import core
 from core import Case, Prop, SelfCheckFailure
 
-from spacepackets.ccsds.spacepacket import PacketId, PacketSeqCtrl, PacketType, SequenceFlags
+from spacepackets.ccsds.spacepacket import PacketId, PacketSeqCtrl, PacketType, SequenceFlags, SpacePacketHeader
 from spacepackets.crc import CRC16_CCITT_FUNC
 from spacepackets.ecss.fields import PacketFieldEnum
 from spacepackets.ecss.req_id import RequestId
@@ -141,20 +141,147 @@ def _tracker_view(v: PusVerificator):
 _TRACKERS = core.Isolation(keep=1)
 
 
+class _Shared:
+    """objects for a history, default mode: a telecommand / report per distinct parameter set, shared by all lines of the
+    process (never modified)"""
+    prepared = False
+
+    def tc(self, f):
+        return _tc(f)
+
+    def tm(self, f, sub, stepval, mode, width):
+        return _tm(f, sub, stepval, mode, width)
+
+    def rid(self, f):
+        return _req(f)
+
+
+class _Reused:
+    """objects for a history, key "tc_objects" (not read by the model op): the application owns ONE PusTc object (one per
+    version number - the version bits have no setter) and gives it the header fields of each command through the
+    documented setters (tc.apid, tc.seq_count, the setters of tc.sp_header) before it registers it / builds reports for it
+    / takes its request id. The abstract history is the one of the line; whatever was obtained for a command earlier
+    (request id, report, dictionary key inside the tracker) is the value it was when it was obtained.
+      "reused":      every report and request id of the history is obtained FIRST (command by command, the object being
+                     changed in between), the calls on the tracker follow - reports built for a command before the object
+                     moved on to the next one are credited to that command;
+      "reused-lazy": reports / request ids are obtained at the step that uses them."""
+
+    def __init__(self, a, lazy: bool):
+        self.tcs: Dict[int, PusTc] = {}
+        self.lazy = lazy
+        self.tms: Dict[Tuple, Service1Tm] = {}
+        self.rids: Dict[Tuple, RequestId] = {}
+        self.n_tm = 0
+        self.prepared = not lazy
+        if not lazy:
+            ids, steps = a["ids"], a["steps"][: a["n"]]
+            for i, f in enumerate(ids):
+                mine = [st for st in steps if st[0] in (ADD_TM, REMOVE) and st[1] == i]
+                if not mine:
+                    continue
+                self.tc(f)
+                self.rids[tuple(f)] = RequestId.from_pus_tc(self.tcs[f[0]])
+                for st in mine:
+                    if st[0] == ADD_TM:
+                        key = (tuple(f), st[2], st[3], st[4] if len(st) > 4 else MK_CTOR, st[5] if len(st) > 5 else 1)
+                        if key not in self.tms:
+                            self.tms[key] = self._build(*key)
+
+    def tc(self, f) -> PusTc:
+        v, t, s, apid, flags, count = f
+        tc = self.tcs.get(v)
+        if tc is None:
+            tc = PusTc(service=17, subservice=1, apid=apid, seq_count=count, app_data=bytes([v]))
+            if v != 0:
+                h = tc.sp_header
+                tc.sp_header = SpacePacketHeader(packet_type=h.packet_type, apid=h.apid, seq_count=h.seq_count, data_len=h.data_len,
+                                                 sec_header_flag=h.sec_header_flag, seq_flags=h.seq_flags, ccsds_version=v)
+            self.tcs[v] = tc
+        tc.apid = apid
+        tc.seq_count = count
+        h = tc.sp_header
+        h.packet_type, h.sec_header_flag, h.seq_flags = PacketType(t), bool(s), SequenceFlags(flags)
+        if bytes(h.pack())[:4] != int(_req(f).as_u32()).to_bytes(4, "big"):
+            raise SelfCheckFailure(f"a telecommand object given the header fields {list(f)} through its setters has the header {bytes(h.pack()).hex()}")
+        return tc
+
+    def _build(self, f, sub, stepval, mode, width) -> Service1Tm:
+        """like _tm, for the application's telecommand object as it is NOW (it carries f)"""
+        tc = self.tcs[f[0]]
+        step = PacketFieldEnum(8 * width, stepval) if sub in (5, 6) else None
+        fail = FailureNotice(PacketFieldEnum(8, 3), bytes([0xAB])) if sub % 2 == 0 else None
+        self.n_tm += 1
+        if mode == MK_HELPER and 1 <= sub <= 8:
+            kw: Dict[str, Any] = {"apid": 0x55, "pus_tc": tc, "timestamp": TIMESTAMP}
+            if step is not None:
+                kw["step_id"] = step
+            if fail is not None:
+                kw["failure_notice"] = fail
+            return getattr(s1, _HELPERS[sub])(**kw)
+        rid = RequestId.from_pus_tc(tc) if self.n_tm % 2 else RequestId.from_sp_header(tc.sp_header)
+        tm = Service1Tm(apid=0x55, subservice=Subservice(sub) if 0 <= sub <= 8 else sub, timestamp=TIMESTAMP,
+                        verif_params=VerificationParams(rid, step, fail), seq_count=sub)
+        if mode == MK_DECODED and 1 <= sub <= 8:
+            tm = Service1Tm.unpack(core.pack_stable(tm, "Service1Tm.pack()"),
+                                   core.REUSE.get(["UnpackParams", len(TIMESTAMP), width, 1],
+                                                  lambda: UnpackParams(len(TIMESTAMP), width, 1)))
+        return tm
+
+    def tm(self, f, sub, stepval, mode, width) -> Service1Tm:
+        key = (tuple(f), sub, stepval, mode, width)
+        if not self.lazy:
+            return self.tms[key]
+        self.tc(f)
+        return self._build(*key)
+
+    def rid(self, f) -> RequestId:
+        if not self.lazy:
+            return self.rids[tuple(f)]
+        return RequestId.from_pus_tc(self.tc(f))
+
+
+def _lookups_by_value(v: PusVerificator, probes, which, snap, after: str):
+    """`request id in verif_dict` / `verif_dict.get(request id)` answer by the VALUE of the request id: for the ids `which`
+    of the history a request id built from the fields (and the one the application took for that command earlier) is found
+    exactly when the dictionary holds an entry with that 32-bit value, and the record found is that entry's.
+    probes[i] = (32-bit value, [(label, request id), ...])"""
+    held = {k: st for k, st in snap}
+    d = v.verif_dict
+    for i in which:
+        k, rs = probes[i]
+        for label, r in rs:
+            found, rec = r in d, d.get(r)
+            if found != (k in held) or (rec is None) == found or (rec is not None and _status(rec) != held[k]):
+                saw = "finds nothing" if not found else ("finds the record " + str(None if rec is None else _status(rec)))
+                raise SelfCheckFailure(f"after {after}: the dictionary {'holds' if k in held else 'does not hold'} an entry for request id "
+                                       f"{k:#010x} ({held.get(k)}), but looking it up with a request id {label} {saw}")
+
+
 def op_verif_run(a):
     ids = a["ids"]
+    objs = a.get("tc_objects")
+    src = _Reused(a, lazy=(objs == "reused-lazy")) if objs in ("reused", "reused-lazy") else _Shared()
     v = PusVerificator()
     outs: List[Any] = []
     dicts: List[Any] = []
-    for st in a["steps"][: a["n"]]:
+    probes, recent = [], []
+    if objs:
+        for f in ids:
+            rs = [("built from the fields", _req(f))]
+            if src.prepared and tuple(f) in src.rids:
+                rs.append(("taken from the telecommand object when it carried that command", src.rids[tuple(f)]))
+            probes.append((int(rs[0][1].as_u32()), rs))
+    steps = a["steps"][: a["n"]]
+    for st in steps:
         kind = st[0]
         if kind == ADD_TC:
-            out = bool(v.add_tc(_tc(ids[st[1]])))
+            out = bool(v.add_tc(src.tc(ids[st[1]])))
         elif kind == ADD_TM:
             f, sub, stepval = ids[st[1]], st[2], st[3]
             mode = st[4] if len(st) > 4 else MK_CTOR
             width = st[5] if len(st) > 5 else 1
-            tm = _tm(f, sub, stepval, mode, width)
+            tm = src.tm(f, sub, stepval, mode, width)
             if 1 <= sub <= 8:
                 res = v.add_tm(tm)
             else:
@@ -175,7 +302,7 @@ def op_verif_run(a):
                 if stored is None or _status(stored) != out["status"]:
                     raise SelfCheckFailure("the status of the returned result is not the record stored for the request id")
         elif kind == REMOVE:
-            out = bool(v.remove_entry(_req(ids[st[1]])))
+            out = bool(v.remove_entry(src.rid(ids[st[1]])))
         elif kind == REMOVE_COMPLETED:
             out = v.remove_completed_entries()
             if out is not None:
@@ -184,6 +311,12 @@ def op_verif_run(a):
             raise AssertionError(st)
         outs.append(out)
         dicts.append(_snapshot(v, len(outs)))
+        if objs:
+            # (all ids of a small table and at the end of the history, otherwise those of the last few calls)
+            if len(st) > 1:
+                recent = [st[1]] + [i for i in recent if i != st[1]][:3]
+            which = range(len(ids)) if len(ids) <= 4 or len(outs) == len(steps) else recent
+            _lookups_by_value(v, probes, which, dicts[-1], f"call #{len(outs) - 1} of the history (telecommand objects: {objs})")
     _TRACKERS.check("C16.tracker", v, _tracker_view)
     return {"outs": outs, "dicts": dicts}
 
@@ -229,8 +362,18 @@ def tm_step(i, sub, val=None, mode=MK_CTOR, width=1):
     return [ADD_TM, i, sub, val if sub in (5, 6) else None, mode, width]
 
 
-def run_case(ids, steps, tag) -> Case:
-    return Case({"op": "verif_run", "n": len(steps), "ids": ids, "steps": steps}, "valid", tag=tag)
+def run_case(ids, steps, tag, tc_objects=None) -> Case:
+    op = {"op": "verif_run", "n": len(steps), "ids": ids, "steps": steps}
+    if tc_objects:
+        # (not read by the model op) the history is realised with ONE telecommand object that is given the header fields
+        # of each command through its setters, see _Reused
+        op["tc_objects"] = tc_objects
+        tag += "+tc-" + tc_objects
+    return Case(op, "valid", tag=tag)
+
+
+# every REUSE_EVERY-th history of the exhaustive sets is run a second time with one reused telecommand object
+REUSE_EVERY = 11
 
 
 def alphabet(n_ids: int, step_vals=(0, 1)) -> List[List[int]]:
@@ -384,6 +527,38 @@ class C16(Prop):
                     steps.append(tm_step(1, chain[-1 - k], 20 + k, mode, 1))
                 steps += [[REMOVE_COMPLETED], [REMOVE, 0], [REMOVE, 0], [REMOVE, 1], [ADD_TC, 0], tm_step(0, 5, 1, mode, 1)]
                 yield run_case([TC_A, TC_B], steps, "scripted")
+                for objs in ("reused", "reused-lazy"):
+                    yield run_case([TC_A, TC_B], steps, "scripted", objs)
+        # one telecommand object, used for command after command (sequence count / APID / flag bits moving on): register,
+        # build its reports, move on, register again; the reports of the earlier commands arrive afterwards
+        for rep in range(40 if thorough else 12):
+            base = rand_tc_fields(rng, 0.3 if rep % 3 else 0.0)
+            ids = [base]
+            for _ in range(rng.randint(1, 4)):
+                f = list(ids[-1])
+                what = rng.choice(["count", "count", "count", "apid", "both", "flags"])
+                if what in ("count", "both"):
+                    f[5] = (f[5] + rng.choice([1, 1, 1, 2, 0x2000])) % 16384
+                if what in ("apid", "both"):
+                    f[3] ^= rng.choice([1, 0x400])
+                if what == "flags":
+                    f[rng.choice([1, 2, 4])] ^= 1
+                if f not in ids:
+                    ids.append(f)
+            steps: List[List[Any]] = []
+            for i in range(len(ids)):
+                steps.append([ADD_TC, i])
+                if rng.random() < 0.5:
+                    steps.append(tm_step(i, 1, None, rng.choice([MK_CTOR, MK_HELPER, MK_DECODED])))
+            steps.append([ADD_TC, 0])
+            for sub in (1, 3, 5, 7):
+                order = list(range(len(ids)))
+                rng.shuffle(order)
+                for i in order:
+                    steps.append(tm_step(i, sub, 1 + i, rng.choice([MK_CTOR, MK_HELPER, MK_HELPER, MK_DECODED]), rng.choice([1, 2])))
+            steps += [[REMOVE, 0], [ADD_TC, len(ids) - 1], [REMOVE_COMPLETED], [ADD_TC, 0], tm_step(0, 2, None, MK_HELPER)]
+            for objs in (None, "reused", "reused-lazy"):
+                yield run_case(ids, steps, "object-reuse", objs)
 
         # --- exhaustive: all report sequences for one telecommand ---------------------------------
         depth = 6 if thorough else 5
@@ -394,11 +569,19 @@ class C16(Prop):
         # --- exhaustive: all short histories over two telecommands --------------------------------
         alpha = alphabet(2)
         depth2 = 4 if thorough else 3
+        n_h = 0
         for hist in itertools.product(alpha, repeat=depth2):
             yield run_case([TC_A, TC_B], list(hist), f"all-histories-{depth2}")
+            n_h += 1
+            if n_h % REUSE_EVERY == 0:
+                yield run_case([TC_A, TC_B], list(hist), f"all-histories-{depth2}", ("reused", "reused-lazy")[(n_h // REUSE_EVERY) % 2])
         if not thorough:
             for hist in itertools.product(alpha, repeat=3):
                 yield run_case([TC_A, TC_B], [[ADD_TC, 0], [ADD_TC, 1]] + list(hist), "all-histories-3-after-registration")
+                n_h += 1
+                if n_h % REUSE_EVERY == 0:
+                    yield run_case([TC_A, TC_B], [[ADD_TC, 0], [ADD_TC, 1]] + list(hist), "all-histories-3-after-registration",
+                                   ("reused", "reused-lazy")[(n_h // REUSE_EVERY) % 2])
         # after random prefixes (deeper states: partially verified, finished, removed and re-registered)
         depth3 = 3 if thorough else 2
         for _ in range(12):
@@ -414,11 +597,17 @@ class C16(Prop):
             length = rng.choice([30, 30, 60, 200]) if thorough else rng.choice([10, 30, 30, 45])
             ids, steps = random_history(rng, n_tc, length, rng.choice([0.0, 0.3, 1.0]), 0.03, 0.15)
             yield run_case(ids, steps, "random-long")
+            n_h += 1
+            if n_h % 6 == 0:
+                yield run_case(ids, steps, "random-long", ("reused", "reused-lazy")[(n_h // 6) % 2])
         # many telecommands, few reports each (dictionary behaviour)
         for _ in range(300 if thorough else 40):
             n_tc = rng.randint(8, 40)
             ids, steps = random_history(rng, n_tc, 3 * n_tc, 0.5, 0.02, 0.3)
             yield run_case(ids, steps, "random-many-tcs")
+            n_h += 1
+            if n_h % 2 == 0:
+                yield run_case(ids, steps, "random-many-tcs", ("reused", "reused-lazy")[(n_h // 2) % 2])
         # --- request ids / reports that come from the library's factories are objects of their own (key "fac") ---
         import props.c11 as c11
         for _ in range(20 if thorough else 3):
